@@ -154,7 +154,15 @@ func (p *c15) toggleCase(x *res, adapter string, seq []int, ctx *runner.Ctx) {
 
 func (p *c15) batchCompositions(x *res, adapter string, ctx *runner.Ctx) {
 	specA, specB := ixSpec("tba15", true), mon.SpecHashOnly("tbb15")
-	for _, n := range []int{1, 2, 25} {
+	// "rich" compositions: every put carries one member of C10's boundary set (empty string / list / map / binary,
+	// NULL, one-element sets, 38-digit numerals, ...) nested in a list or map: the request reported as unprocessed
+	// must be the request that was made, value for value
+	bnd := c10Boundary()
+	for _, n := range []int{1, 2, 13, 17, 25, 101, 102} {
+		rich := n > 100
+		if rich {
+			n -= 84 // 17 and 18 requests
+		}
 		for _, ntab := range []int{1, 2} {
 			for _, cond := range []string{"internal_server", "deprecated"} {
 				cl, m, ds := freshClient(adapter, specA, specB)
@@ -179,21 +187,30 @@ func (p *c15) batchCompositions(x *res, adapter string, ctx *runner.Ctx) {
 						if i%3 == 0 {
 							batch = append(batch, adapt.BatchEntry{Table: tn, Del: val.Item{"h": val.Str("p"), "r": val.Str(fmt.Sprint(i % 6))}})
 						} else {
-							batch = append(batch, adapt.BatchEntry{Table: tn, Put: ixItem("n", fmt.Sprint(i), "y", "1", 100+i)})
+							it := ixItem("n", fmt.Sprint(i), "y", "1", 100+i)
+							if rich {
+								it["x"] = nest(bnd[(i*7+n)%len(bnd)], c10Shapes[i%len(c10Shapes)])
+								it["e"] = bnd[(i+11)%13]
+							}
+							batch = append(batch, adapt.BatchEntry{Table: tn, Put: it})
 						}
 						keys.Add(tn, val.Item{"h": val.Str("n"), "r": val.Str(fmt.Sprint(i))})
 					} else {
 						if i%3 == 0 {
 							batch = append(batch, adapt.BatchEntry{Table: tn, Del: val.Item{"h": val.Str(fmt.Sprint("k", i%6))}})
 						} else {
-							batch = append(batch, adapt.BatchEntry{Table: tn, Put: val.Item{"h": val.Str(fmt.Sprint("n", i)), "v": val.Num("1")}})
+							it := val.Item{"h": val.Str(fmt.Sprint("n", i)), "v": val.Num("1")}
+							if rich {
+								it["x"] = nest(bnd[(i*5+n)%len(bnd)], c10Shapes[(i+3)%len(c10Shapes)])
+							}
+							batch = append(batch, adapt.BatchEntry{Table: tn, Put: it})
 						}
 						keys.Add(tn, val.Item{"h": val.Str(fmt.Sprint("n", i))})
 					}
 				}
 				before := mon.Snapshot(cl, []string{specA.Name, specB.Name}, keys)
 				ops := []adapt.Op{{Kind: adapt.OpEmulate, Fail: cond}, {Kind: adapt.OpBatchWrite, Batch: batch}, {Kind: adapt.OpEmulate, Fail: "none"}}
-				x.fp(true, "batch|%s|%d|%d|%s", adapter, n, ntab, cond)
+				x.fp(true, "batch|%s|%d|%d|%s|%v", adapter, n, ntab, cond, rich)
 				f := mon.RunHistory(cl, m, ops, keys, false, nil, ctx.Trace, st)
 				x.r.Evals += st.Calls
 				if f != nil {
